@@ -36,6 +36,7 @@ class PEval:
         self.env = dict(env)
         self.calls = sink if sink is not None else []      # (name, [values], node, func key)
         self.returns = []
+        self.return_envs = []       # the environment at each `return` reached, parallel to returns
 
     # ------------------------------------------------------------------ expressions
     def ev(self, e, env):
@@ -60,7 +61,16 @@ class PEval:
             return sym(txt)
         if isinstance(e, ast.Dict):
             try:
-                return {self._hashable(self.ev(k, env)): self.ev(v, env) for k, v in zip(e.keys, e.values)}
+                out = {}
+                for k, v in zip(e.keys, e.values):
+                    if k is None:                      # {**other, ...}
+                        inner = self.ev(v, env)
+                        if not isinstance(inner, dict):
+                            return sym(ast.unparse(e)[:40])
+                        out.update(inner)
+                    else:
+                        out[self._hashable(self.ev(k, env))] = self.ev(v, env)
+                return out
             except TypeError:
                 return sym(ast.unparse(e)[:40])
         if isinstance(e, (ast.Tuple, ast.List)):
@@ -163,6 +173,22 @@ class PEval:
                     return base.get(self._hashable(args[0]), args[1] if len(args) > 1 else None)
                 except TypeError:
                     pass
+        if name == 'dict.fromkeys' and 1 <= len(args) <= 2 and (isinstance(args[0], dict) or (is_const(args[0]) and isinstance(args[0], tuple))):
+            try:
+                return dict.fromkeys([self._hashable(k) for k in args[0]], args[1] if len(args) > 1 else None)
+            except TypeError:
+                pass
+        if isinstance(e.func, ast.Attribute) and e.func.attr in ('items', 'keys', 'values') and not args:
+            base = self.ev(e.func.value, env)
+            if isinstance(base, dict):
+                return tuple(getattr(base, e.func.attr)())
+        if name == 'dict' and len(args) == 1 and isinstance(args[0], dict) and not kw:
+            return dict(args[0])
+        if name == 'setattr' and len(args) == 3:
+            self.calls.append(('setattr', args, e, self.f.key))
+            if isinstance(args[1], str):
+                env[f'{ast.unparse(e.args[0])}.{args[1]}'] = args[2]     # the statement evaluator hands us the path's own environment
+            return None
         if name in ('struct.pack', 'struct.unpack', 'struct.calcsize'):
             self.calls.append((name, args, e, self.f.key))
             return ('call', name, tuple(args))
@@ -253,10 +279,12 @@ class PEval:
                 env[s.target.id] = self.ev(ast.BinOp(left=ast.Name(id=s.target.id, ctx=ast.Load()), op=s.op, right=s.value), env)
             return [env]
         if isinstance(s, ast.Expr):
+            env = dict(env)
             self.ev(s.value, env)
             return [env]
         if isinstance(s, ast.Return):
             self.returns.append(self.ev(s.value, env) if s.value is not None else None)
+            self.return_envs.append(env)
             return []
         if isinstance(s, ast.Raise):
             return []
@@ -284,6 +312,31 @@ class PEval:
             return out
         if isinstance(s, ast.With):
             return self.block(s.body, env)
+        if isinstance(s, ast.For) and not s.orelse:
+            it = self.ev(s.iter, env)
+            if isinstance(it, dict):
+                it = tuple(it.keys())
+            if not (is_const(it) and isinstance(it, tuple) and len(it) <= 64) or \
+                    any(isinstance(y, (ast.Break, ast.Continue)) for b in s.body for y in ast.walk(b)):
+                raise Unsupported(f'{self.f.key}: loop over a value that is not a known table')
+            envs = [env]
+            for item in it:
+                nxt = []
+                for en in envs:
+                    en = dict(en)
+                    if isinstance(s.target, ast.Name):
+                        en[s.target.id] = item
+                    elif isinstance(s.target, (ast.Tuple, ast.List)) and isinstance(item, tuple) and len(item) == len(s.target.elts) \
+                            and all(isinstance(t, ast.Name) for t in s.target.elts):
+                        for t, v in zip(s.target.elts, item):
+                            en[t.id] = v
+                    else:
+                        raise Unsupported(f'{self.f.key}: loop target shape')
+                    nxt.extend(self.block(s.body, en))
+                envs = nxt
+                if len(envs) > 64:
+                    raise Unsupported('too many paths')
+            return envs
         raise Unsupported(f'{self.f.key}: statement {type(s).__name__} is outside the partial evaluator')
 
 
